@@ -15,6 +15,7 @@ from vf.props import _play as PL
 from vf.sim.session import run_session
 
 STEP_BOUND = 400000
+GB_ALPHA = 'abcdefghijklmnopqrstuvwxyzABCDEFGHIJKLMNOPQRSTUVWXYZ0123456789 .,-_/()+#:'
 
 
 # ---------------------------------------------------------------------------------------
@@ -570,7 +571,9 @@ def header_scenario(draw):
     n = draw(st.integers(1, 12))
     boards = [{'id': str(i + 1), 'dealer': draw(st.integers(0, 3)), 'vul': draw(st.sampled_from(['None', 'NS', 'EW', 'Both'])),
                'owner': [c // 13 for c in range(52)], 'dda': None, 'calls': [A.PASS] * 4, 'cards': []} for i in range(n)]
-    return {'boards': boards, 'teams': [draw(GS.TEAM), draw(GS.TEAM)], 'arrival': draw(permutations([0, 1, 2, 3])), 'fmt': {}}
+    long_team = st.text(alphabet=GB_ALPHA, min_size=300, max_size=700)          # names that make the Teams line long
+    team = st.one_of(GS.TEAM, GS.TEAM, GS.TEAM, long_team)
+    return {'boards': boards, 'teams': [draw(team), draw(team)], 'arrival': draw(permutations([0, 1, 2, 3])), 'fmt': {}}
 
 
 def plan_c19(tier):
